@@ -112,6 +112,7 @@ type Interp struct {
 	mapPerm bool
 	sch     *sched
 	numCPU  int
+	allowCrash bool
 }
 
 type deferred struct {
